@@ -46,7 +46,7 @@ type errFlow struct {
 	infallible map[*types.Func]bool
 	sentinels  map[types.Object]bool
 	funcs      []*efFunc
-	exempt     map[string]string // "func|callee" -> reason
+	exempt     map[string]string     // "func|callee" -> reason
 	caseTag    map[ast.Expr]ast.Expr // case expression of a tagged switch -> the switch tag
 }
 
